@@ -194,8 +194,21 @@ def is_sentinel(e):
     e = strip_casts(e)
     return e == ("const", 0xFFFFFFFF) or (e[0] == "gconst" and str(e[1]).endswith("u32::MAX"))
 
+def _is_loop_counter(e):
+    """a loop-carried local whose alternatives are a start value and itself + 1 (`let mut i = 0; while i < N { ..; i += 1 }`)"""
+    e = strip_casts(e)
+    if e[0] != "phi" or len(e) < 4: return False
+    for a in e[3]:
+        a = strip_casts(a)
+        if a[0] == "pair": a = a[1]
+        if a[0] == "bin" and a[1].rstrip("!~") == "Add":
+            x, y = strip_casts(a[2]), strip_casts(a[3])
+            if (x[:2] == ("phi", e[1]) and y == ("const", 1)) or (y[:2] == ("phi", e[1]) and x == ("const", 1)): return True
+    return False
+
 def sentinel_test(l, r):
-    return is_sentinel(l) or is_sentinel(r)
+    """conditions that only steer the iteration over the listener list, not the wake decision: the end-of-list sentinel and the bound test of an index loop"""
+    return is_sentinel(l) or is_sentinel(r) or _is_loop_counter(l) or _is_loop_counter(r)
 
 
 def length_source(fx, s, atom):
